@@ -222,7 +222,12 @@ def run_pending_marks(ctx):
                     for x in ast.walk(st): guarded.add(id(x))
         for c in [c for c in calls_in(fn.node) if isinstance(c.func, ast.Attribute) and c.func.attr == '_exec_sql' and c.lineno < adj[0].lineno]:
             nd2 += 1
-            ok = id(c) in guarded
+            # Since pony fix 967f47e every flush settles the pending marks of every collection it writes, so an auto-flush *inside* the statement leaves
+            # nothing to adjust by -- provided the adjustment reads the marks after the statement (an attribute read of .added / .removed, which is how
+            # `adj` is recognised), not a copy taken before it.  Suppressing the auto-flush is then one sound way, reading fresh marks the other; both
+            # are accepted (this clause used to demand flush_disabled(): it fired on a behaviour-preserving edit, seed C10e after the fix).
+            fresh = all(isinstance(c2.args[0], ast.Attribute) for st in adj for c2 in ast.walk(st.value) if isinstance(c2, ast.Call) and dotted(c2.func) == 'len' and c2.args)
+            ok = id(c) in guarded or fresh
             ctx.ob('C10-D.result-adjusted-by-pending-changes-is-read-without-auto-flush', fn, c, ok,
                    '' if ok else 'the result of this statement is corrected by len(.added)/len(.removed) afterwards, but the statement is not executed under flush_disabled(): its auto-flush '
                    'writes the pending items first and they are counted twice', node=c)
@@ -253,7 +258,7 @@ def run_noflush_reads(ctx):
                        'added to or removed from the collection' % (sorted(set(outside)) or 'neither'), node=c,
                        expected='after the block: adjust the result by both <setdata>.added and <setdata>.removed, or do not suppress the flush')
     ctx.floor('C10-D', blocks, 8, '`with cache.flush_disabled()` blocks in core.py')
-    ctx.floor('C10-D', sites, 1, 'statements executed directly under flush_disabled')
+    ctx.count('C10-D: statements executed directly under flush_disabled', sites)      # 1 today; none is a legitimate state (the query may simply let the auto-flush happen)
 
 
 def setdata_vars(fn_node):
@@ -393,7 +398,7 @@ def count_known_none(g, st, var):
 MUTANTS = [
     dict(id='C10-own1', file='pony/orm/core.py', fn='Set.load', old="                if setdata2.removed: items -= setdata2.removed\n                setdata2 |= items", new="                if setdata.removed: items -= setdata.removed\n                setdata2 |= items", expect='C10-B.loaded-rows'),
     dict(id='C10-f1', file='pony/orm/core.py', fn='SessionCache._calc_modified_m2m', old="            if reverse in modified_m2m:\n", new="            if reverse in modified_m2m: continue\n            if False:\n", expect='C10-F.flush-settles'),
-    dict(id='C10-d3', file='pony/orm/core.py', fn='SetInstance.count', old="        with cache.flush_disabled():\n            cursor = database._exec_sql(sql, arguments)\n        setdata.count = cursor.fetchone()[0]", new="        cursor = database._exec_sql(sql, arguments)\n        setdata.count = cursor.fetchone()[0]", expect='C10-D.result-adjusted'),
+    dict(id='C10-d3', file='pony/orm/core.py', fn='SetInstance.count', old="        with cache.flush_disabled():\n            cursor = database._exec_sql(sql, arguments)\n        setdata.count = cursor.fetchone()[0]", new="        cursor = database._exec_sql(sql, arguments)\n        setdata.count = cursor.fetchone()[0]", benign=True),
     dict(id='C10-e1', file='pony/orm/core.py', fn='EntityMeta._find_in_db_', old="        cache.prepare_connection_for_query_execution()  # flush: a new object used as a value gets its primary key\n", new="", expect='C10-E'),
     dict(id='C10-e2', file='pony/orm/core.py', fn='Query.delete', old="        cache.prepare_connection_for_query_execution()  # may clear cache.query_results\n        arguments = adapter(query._vars)\n", new="        arguments = adapter(query._vars)\n        cache.prepare_connection_for_query_execution()  # may clear cache.query_results\n", expect='C10-E'),
     dict(id='C10-d1', file='pony/orm/core.py', fn='SetInstance.is_empty', old="        cursor = database._exec_sql(sql, arguments)\n", new="        with cache.flush_disabled():\n            cursor = database._exec_sql(sql, arguments)\n", expect='C10-D'),
